@@ -1070,10 +1070,12 @@ func gen(r *vh.Rand) string {
 // pre: the deterministic set that runs in every tier
 func pre(emit func(string), thorough bool) {
 	// several backend rounds towards a client whose conn inside bfe is a bfe_tls server Conn (1/n-1 split at TLS 1.0)
-	for _, p := range []string{"t10c", "t11c", "t12c", "t12g", "wss0", "wss", "tls", "ws"} {
+	for i, p := range []string{"t10c", "wss0", "ws", "tls", "t11c", "t12c", "t12g", "wss"} {
 		emit(p + ";pc=0102;pb=0a0b0c;s=B:0d0e0f,C:06,B:1112,B:131415161718,C:07,xc")
-		emit(p + ";pc=-;pb=-;s=B:0d0e,B:0f10,hb")
-		emit(p + ";pc=01;pb=-;s=C:0203,hc")
+		if i < 4 || thorough { // half-closes in both directions: four representative protos in the quick tier
+			emit(p + ";pc=-;pb=-;s=B:0d0e,B:0f10,hb")
+			emit(p + ";pc=01;pb=-;s=C:0203,hc")
+		}
 	}
 	// io.Writer contract at the record boundaries
 	for _, v := range []string{"t10c", "t11c", "t12c", "t12g"} {
